@@ -90,7 +90,17 @@ func f64Canon(f float64) string {
 	return sign + strconv.FormatUint(mant, 10) + "p" + strconv.FormatInt(e, 10)
 }
 
-func canon(v any, sb *strings.Builder) {
+// maxDepth bounds the recursion of the canonicalisers: a value nested deeper (or cyclic, which only a defective
+// library can produce from tree-shaped input) is rendered as GO<too-deep-or-cyclic>, which never compares equal.
+const maxDepth = 120000
+
+func canon(v any, sb *strings.Builder) { canonD(v, sb, 0) }
+
+func canonD(v any, sb *strings.Builder, depth int) {
+	if depth > maxDepth {
+		sb.WriteString("GO<too-deep-or-cyclic>")
+		return
+	}
 	switch v := v.(type) {
 	case nil:
 		sb.WriteString("null")
@@ -145,7 +155,7 @@ func canon(v any, sb *strings.Builder) {
 			if i > 0 {
 				sb.WriteString(",")
 			}
-			canon(x, sb)
+			canonD(x, sb, depth+1)
 		}
 		sb.WriteString("]")
 	case map[string]any:
@@ -166,7 +176,7 @@ func canon(v any, sb *strings.Builder) {
 			sb.WriteString("s")
 			sb.WriteString(hexs([]byte(k)))
 			sb.WriteString(":")
-			canon(v[k], sb)
+			canonD(v[k], sb, depth+1)
 		}
 		sb.WriteString("}")
 	case Foreign:
